@@ -217,7 +217,12 @@ func newC18World(format string, seed int64, state string, forCreate bool) (*c18W
 	case "one-damaged":
 		flip(0)
 	case "several-damaged":
-		os.Remove(paths[2])
+		// two files to rewrite, within capacity (PAR2: 3 blocks; PAR1: 2 volumes)
+		if format == "par2" {
+			flip(2)
+		} else {
+			os.Remove(paths[2])
+		}
 		flip(0)
 	case "mangled":
 		os.WriteFile(paths[0], append(append([]byte(nil), w.files[0].Data...), 1, 2, 3), 0644)
